@@ -7,7 +7,9 @@
    minimal configurations for the rows of their order type): Spec.ForkVersion, ForkDecoder.ForkDigest/BlockAllocator
    for 3 genesis validators roots, block <-> envelope conversion, BeaconBlockEnvelope.VerifySignature with real BLS
    signatures under every fork version, state type + state.Fork() after ProcessSlots/UpgradeMaybe at the first,
-   second and last slot of every epoch.
+   second and last slot of every epoch; get_domain: common.Fork.GetDomain on the Fork record of every row and
+   common.GetDomain on every chain state, at message epochs fork.epoch-1 / fork.epoch / fork.epoch+1 and around the
+   state's epoch, against Forks!DomainVersion, and cross-checked with Spec.ForkVersion of the state's own epoch.
 3. harness dumps configs.Mainnet / configs.Minimal and the spec-level Go constants; TLC compares key by key with
    PublishedConstants.tla.
 """
@@ -108,7 +110,10 @@ def constants_check(binary):
 
 
 REQUIRED_CHECKS = ["ForkVersion", "ForkDigest", "BlockAllocator", "VerifySignature", "Envelope", "State",
-                   "StateVsForkVersion", "Chains"]
+                   "StateVsForkVersion", "Chains", "ForkGetDomain", "StateGetDomain", "DomainVsForkVersion"]
+# guarded boundary counters (not comparisons): get_domain evaluated with message epoch == fork.epoch of a real
+# fork boundary (previous_version != current_version), and one epoch before it
+BOUNDARY_COUNTERS = ["get_domain_at_fork_epoch", "get_domain_before_fork_epoch"]
 
 
 def check(tier, seed):
@@ -141,13 +146,19 @@ def check(tier, seed):
     summary, mism = go_replay(binary, table, seed, sigmode, chains)
     if summary["rows"] != nrows:
         raise lib.InfraError("replayer read %d of %d rows" % (summary["rows"], nrows))
+    counters = {k: summary["checks"].pop(k, 0) for k in BOUNDARY_COUNTERS}
     cov["replay_checks"] = summary["checks"]
+    cov["boundary_counters"] = counters
+    cov["get_domain_at_fork_epoch"] = counters["get_domain_at_fork_epoch"]
     cov["builtin_config_rows"] = summary["builtin_rows"]
     cov["chain_jobs"] = summary["chain_jobs"]
     cov["mainnet_order_type"] = summary["mainnet_order_type"]
     for k in REQUIRED_CHECKS:
         if summary["checks"].get(k, 0) == 0 and not any(m["kind"] in ("Chain",) for m in mism):
             raise lib.InfraError("vacuous: no %s comparison was made" % k)
+    for k, v in counters.items():
+        if v == 0 and not any(m["kind"] == "Chain" for m in mism):
+            raise lib.InfraError("vacuous: boundary counter %s is zero" % k)
     if summary["builtin_rows"] == 0:
         raise lib.InfraError("vacuous: built-in configurations matched no table row")
     for m in mism:
@@ -276,6 +287,7 @@ MUTANTS = {
     "config-fork-version": ("eth2/configs/yamls/configs/mainnet.yaml", "CAPELLA_FORK_VERSION: 0x03000000", "CAPELLA_FORK_VERSION: 0x03000001"),
     "domain-type": ("eth2/beacon/common/spec.go", "var DOMAIN_SYNC_COMMITTEE = BLSDomainType{0x07, 0x00, 0x00, 0x00}",
                     "var DOMAIN_SYNC_COMMITTEE = BLSDomainType{0x70, 0x00, 0x00, 0x00}"),
+    "getdomain-le-at-fork-epoch": ("eth2/beacon/common/versioning.go", "\tif messageEpoch < f.Epoch {", "\tif messageEpoch <= f.Epoch {"),
     "verify-ignores-digest-and-version": ("eth2/beacon/common/block.go", "\tversion := spec.ForkVersion(b.Slot)\n",
                                           "\tversion := spec.GENESIS_FORK_VERSION\n"),
     "upgrade-off-by-one-slot": ("eth2/beacon/fork.go",
